@@ -43,7 +43,7 @@ pub fn c17rows(args: &[String]) {
     let mut samples: Vec<Value> = vec![];
     // (slice size, block length tuples): lengths up to the slice size
     let mut configs: Vec<(usize, Vec<Vec<usize>>)> = vec![
-        (6, vec![vec![6], vec![5, 5], vec![6, 6], vec![5, 6], vec![6, 5], vec![3, 6, 5], vec![6, 2, 6], vec![5, 5, 4]]),
+        (6, vec![vec![6], vec![5, 5], vec![6, 6], vec![5, 6], vec![6, 5], vec![3, 6, 5], vec![6, 2, 6], vec![5, 5, 4], vec![5, 2, 6], vec![6, 1, 6]]),
         (7, vec![vec![7, 7], vec![7, 6], vec![5, 2, 7]]),
     ];
     if !quick {
@@ -95,7 +95,7 @@ pub fn c17rows(args: &[String]) {
                                 }
                                 // all runs with a match, a sample of the others
                                 if has_match || runs % 53 == 0 {
-                                    let row = json!({"slices": slices, "slice": slice, "ws": ws, "lens": t, "data": data, "blocks": blocks});
+                                    let row = json!({"slices": slices, "slice": slice, "ws": ws, "lens": t, "data": data, "blocks": blocks, "minmatch": 5, "builtin": true});
                                     if samples.len() < 2 && has_match {
                                         samples.push(row.clone());
                                     }
@@ -128,7 +128,7 @@ pub fn c17rows(args: &[String]) {
                 }) {
                     if blocks.iter().any(|b| b["seqs"].as_array().unwrap().iter().any(|s| s[2].as_u64().unwrap() > 0)) {
                         with_match += 1;
-                        emit(json!({"slices": slices, "slice": 6, "ws": ws, "lens": t, "data": data, "blocks": blocks}), &mut w);
+                        emit(json!({"slices": slices, "slice": 6, "ws": ws, "lens": t, "data": data, "blocks": blocks, "minmatch": 5, "builtin": true}), &mut w);
                         rows += 1;
                     }
                 } else {
